@@ -3,9 +3,9 @@
     native OCaml types; Z, positive, N stay extracted inductives. No Extract Constant. *)
 From Coq Require Import ExtrOcamlBasic.
 From WT Require Import Base.Wrap Base.ListX Base.Bytes Model.Time Model.Ring Model.Update
-  Model.Codec Model.Handle Model.Text Model.Args Model.Cmd Model.World Model.Generate Model.Query Model.Wire Model.Server Model.FileImage Model.GoWhisperRef Model.Lock Inst.FloatInst.
+  Model.Codec Model.Handle Model.Text Model.Args Model.Cmd Model.World Model.Generate Model.Query Model.Wire Model.Server Model.Path Model.FileImage Model.GoWhisperRef Model.Lock Inst.FloatInst.
 Extraction "wtmodel.ml"
-  create sync reopen h_update h_update_many h_fetch h_dfetch h_raw h_header series_times
+  create sync reopen h_update h_update_many h_fetch h_dfetch h_raw h_header series_times h_fetch_clock h_update_clock h_update_many_clock w_fetch w_update w_update_many
   enc_ts enc_dur enc_val enc_point enc_points enc_series enc_ainfo enc_header
   dec_ts dec_dur dec_val dec_point dec_points_msg dec_series dec_ainfo dec_header
   new_header expected_file_size
@@ -13,5 +13,6 @@ Extraction "wtmodel.ml"
   parse_archive_info_list archive_list_string method_of_string method_string flag_method
   fl_flag_xff fl_sub fl_of_int gen_verdict gen_ok q_escape q_unescape parse_query textout_status textout_runs
   handle_view handle_view_raw view_query client_view client_view_raw parse_command run_copies run_sum_copies wget copy_one diff_one sum_item sum_copy_item sum_diff_item run_diffs view_cmd view_raw_cmd generate_cmd generate_checked read_file
+  path_clean path_join
   open_image image_handle gw_fetch encode_image counter_final
   flocq_fops.
